@@ -10,6 +10,17 @@ worlds per process.
       have got map f tasks as a multiset, every task executed once (model of the REPAIRED
       algorithm: root fallback when no worker rank is allowed).  For <= 3 tasks all sequences of
       wildcard choices are enumerated.
+ (i') jobs that FAIL (repo commit 32238ed): `iter_unordered` with a job function that raises for chosen
+      task values (none, some, all), world sizes 2-5, every max_workers setting, eager / synchronous /
+      mixed sends, seeded wildcard policies and, for small task lists, every sequence of wildcard
+      choices.  The log is replayed through the EXTENDED step function of Model/Dispatch.v
+      (`c06_edispatch_case`: worker ships the error, root remembers the first one, stops yielding and
+      handing out tasks, drains the workers with sentinels, closing broadcast of the error flag): every
+      event must be enabled, the model must end with the observed yields (order), executed tasks and
+      per-rank outcome (returned / raised the error of task t).  Not returning on some rank, or ranks
+      that end differently, is a failing input (`c06-job-error-...`).  The refusal classes whose job
+      raises on a worker rank (group C) are replayed the same way: the driver cuts the run into its
+      iter_unordered episodes (begin/end marks per rank in the simulator log, c06_driver.IterTracer).
  (ii) `Catalog.from_dataframe` (MPI write pipeline), `Catalog(cache)`, `build_trees`,
       `autocorrelate`, `crosscorrelate`, `HistData.from_catalog`, `HistData.to_files/from_files`,
       `CorrFunc.to_file/from_file`: root results must equal the single-process run computed in
@@ -178,6 +189,7 @@ def dispatch_jobs(ctx, size, mode, batch):
                          sched=dict(mode=mode, seed=0)))
     if size == 3 and mode == "eager" and batch == 0:
         jobs.append(dict(kind="selftest"))
+    jobs += joberr_jobs(ctx, size, mode, batch)
     for i, j in enumerate(jobs):
         j["id"] = i
     return jobs
@@ -216,6 +228,255 @@ def translate(log, size, nroot=0):
         elif op == "done:Barrier" and n == last_bar:
             out.append("CBar")
     return out
+
+
+def etranslate(log, size, root_calls=""):
+    """communication log of ONE iter_unordered episode (COMM_WORLD events) -> choices of the extended model
+    (jobs may fail) + what the log itself says about the tasks.  Tasks are numbered in the order the root
+    hands them out; message sequence numbers link a receive to its send.
+    root_calls: outcome of every call of the job function on the root rank ('K' returned / 'E' raised)."""
+    nworkers = size - 1
+    out, init_sent, init_done = [], 0, False
+    err_seen, first_err, root_bcast = False, None, None
+    answered = {}         # worker rank -> (summary of the result the root received last from it, error seen before?)
+    task_of_seq, nsent = {}, 0
+    cur, executed, failed = {}, [], []
+    for e in log:
+        n, rank, op, peer, tag, cid, summ = e[:7]
+        seq = e[7] if len(e) > 7 else None
+        if cid != 0:
+            continue
+        closing = rank == 0 and op == "enter:bcast" and init_sent == nworkers and root_bcast is None
+        if rank == 0 and init_sent == nworkers and not init_done and ((op in ("send", "ssend") and tag == 1) or closing):
+            out.append("EInitDone")
+            init_done = True
+        if op in ("send", "ssend") and rank == 0 and tag == 1:
+            eoq = summ == EOQ
+            if not eoq:
+                task_of_seq[seq] = nsent
+                nsent += 1
+            if init_sent < nworkers:
+                out.append("%s %d" % ("EInitEoq" if eoq else "EInitTask", peer - 1))
+                init_sent += 1
+            else:
+                res, before = answered.pop(peer, ("", False))
+                if not eoq:
+                    kind = "ERecvMore"          # (after an error the model refuses this choice)
+                elif before:
+                    kind = "ERecvDrain"
+                elif "WorkerError" in res:
+                    kind = "ERecvErr"
+                else:
+                    kind = "ERecvLast"
+                out.append("%s %d" % (kind, peer - 1))
+        elif op == "recv" and rank == 0 and tag == 2:
+            answered[peer] = (summ, err_seen)
+            if "WorkerError" in summ and not err_seen:
+                err_seen, first_err = True, cur.get(peer)
+        elif op == "recv" and rank != 0 and peer == 0 and tag == 1:
+            if summ == EOQ:
+                out.append("EWEoq %d" % (rank - 1))
+            else:
+                out.append("EWTask %d" % (rank - 1))
+                cur[rank] = task_of_seq.get(seq)
+                executed.append([rank, cur[rank]])
+        elif op in ("send", "ssend") and rank != 0 and peer == 0 and tag == 2:
+            if "WorkerError" in summ:
+                failed.append(cur.get(rank))
+        elif closing:
+            for k, c in enumerate(root_calls):
+                out.append("EFallback" if c == "K" else "EFallbackErr")
+                executed.append([0, nsent + k])
+                if c != "K":
+                    failed.append(nsent + k)
+                    if first_err is None:
+                        first_err = nsent + k
+            out.append("EExit")
+            root_bcast = summ
+        elif op == "done:bcast" and rank is None and root_bcast is not None and summ == root_bcast:
+            out.append("EBar")
+    return out, dict(handed=nsent, executed=executed, failed=failed, first_err=first_err)
+
+
+def joberr_jobs(ctx, size, mode, batch):
+    """(i') iter_unordered with a job that raises JobError(t) for t in `bad`"""
+    rng = ctx.rng
+    jobs = []
+    mws = [None, 1, 2, 3, size]
+    mws = [m for i, m in enumerate(mws) if m is None or (m <= size and m not in mws[:i])]
+    nts = [1, 2, 4, 7] if ctx.quick() else [1, 2, 3, 5, 8, 12]
+    for mw in mws:
+        for nt in nts:
+            tasks = rng.sample(range(0, 900), nt)
+            how = rng.choice(["one", "one", "first", "last", "some", "some", "all", "none"])
+            if how == "one":
+                bad = [rng.choice(tasks)]
+            elif how == "first":
+                bad = [tasks[0]]
+            elif how == "last":
+                bad = [tasks[-1]]
+            elif how == "some":
+                bad = [t for t in tasks if rng.random() < 0.4] or [tasks[nt // 2]]
+            elif how == "all":
+                bad = list(tasks)
+            else:
+                bad = []
+            pol = rng.choice(["random", "random", "random", "low", "high", "fifo", "lifo"])
+            jobs.append(dict(kind="dispatch", tasks=tasks, bad=sorted(bad), max_workers=mw,
+                             sched=dict(mode=mode, policy=pol, seed=rng.randrange(10 ** 6))))
+    tasks = rng.sample(range(900), 5)
+    jobs.append(dict(kind="dispatch", tasks=tasks, bad=[tasks[rng.randrange(5)]], max_workers=rng.choice([None, 2, size]),
+                     node_only=True, sched=dict(mode=mode, policy="random", seed=rng.randrange(10 ** 6))))
+    # every sequence of wildcard choices: one failing task among four, two among three
+    if mode != "mixed" and batch == 0:
+        cap = 120 if ctx.quick() else 400
+        jobs.append(dict(kind="dispatch", tasks=[10, 11, 12, 13], bad=[11], max_workers=None, exhaustive=True,
+                         maxruns=cap, sched=dict(mode=mode, seed=0)))
+        jobs.append(dict(kind="dispatch", tasks=[7, 8, 9], bad=[7, 9], max_workers=2, exhaustive=True, maxruns=cap,
+                         sched=dict(mode=mode, seed=0)))
+        if not ctx.quick():
+            jobs.append(dict(kind="dispatch", tasks=[20, 21, 22, 23, 24], bad=[24], max_workers=3, exhaustive=True,
+                             maxruns=cap, sched=dict(mode=mode, seed=0)))
+    return jobs
+
+
+def oopt(x):
+    return "None" if x is None else "(Some %s)" % fq.nat(x)
+
+
+def eterm(mode, size, ranks, tasks, bad, choices, exact, got, ran, outs):
+    return "c06_edispatch_case %s %s %s %s %s %s %s %s %s %s" % (
+        fq.b(mode == "sync"), fq.nat(size - 1), fq.nlist(sorted(ranks)), fq.nlist(tasks), fq.nlist(sorted(bad)),
+        fq.lst(choices), fq.b(exact), fq.nlist(got), fq.nlist(ran), fq.lst([oopt(o) for o in outs]))
+
+
+def handle_joberr(ctx, st, size, j, res):
+    """one failing-job dispatch job (possibly many runs when exhaustive); collects Coq terms"""
+    mode = j["sched"].get("mode", "eager")
+    hosts = j["sched"].get("hosts")
+    ranks = ranks_of(size, j.get("max_workers"), j.get("node_only"), hosts)
+    tasks, bad = j["tasks"], j["bad"]
+    for run in res.get("runs", []):
+        idx = len(st["eterms"]) + len(st["enoterm"])
+        replay = dict(entry="parallel.iter_unordered", job_raises_for=bad, world_size=size, max_workers=j.get("max_workers"),
+                      rank0_node_only=bool(j.get("node_only")), tasks=tasks, schedule=run.get("sched"),
+                      decisions=[[d["rank"], d["senders"], d["chosen"]] for d in run.get("decisions", [])][:40])
+        key = ("joberr", size, j.get("max_workers"), bool(j.get("node_only")), mode,
+               tuple(d["chosen"] for d in run.get("decisions", [])), tuple(tasks), tuple(bad))
+        ctx.count(key=key, nontrivial=bool(bad) and size >= 2,
+                  kind="joberr/size%d/mw%s/%s%s" % (size, j.get("max_workers"), mode, "/exh" if j.get("exhaustive") else ""))
+        prob = rank_problems(run)
+        if prob:
+            st["enoterm"].append(idx)
+            ctx.fail("c06-job-error-%s" % problem_kind(prob),
+                     "iter_unordered with a job that raises for the tasks %s (tasks %s, %d ranks, max_workers=%s, %s sends) did not "
+                     "end on all ranks (%s): %s; blocked in: %s"
+                     % (bad, tasks, size, j.get("max_workers"), mode, prob[0], json.dumps(prob[1], default=str)[:500],
+                        json.dumps((run.get("abort") or {}).get("blocked"))[:300]), replay, case=("e", idx))
+            continue
+        vals = {int(r): v.get("value") or {} for r, v in run["ranks"].items()}
+        outs, odd = [], []
+        for r in range(size):
+            raised = vals[r].get("raised")
+            if raised is None:
+                outs.append(None)
+            elif raised[0] == "JobError" and isinstance(raised[1], int):
+                outs.append(raised[1])
+            else:
+                outs.append(10 ** 6 + r)
+                odd.append([r, raised])
+        if odd:
+            ctx.fail("c06-job-error-rank-exception:" + odd[0][1][0],
+                     "iter_unordered with a failing job: rank(s) %s ended with an exception that is not the job's" % odd,
+                     replay, case=("e", idx))
+        got = vals[0].get("got", [])
+        ran = [t for _, t in run["executed"]]
+        root_calls = "".join("E" if t in bad else "K" for r, t in run["executed"] if r == 0)
+        choices, info = etranslate(run["log"], size, root_calls)
+        ctx.bump("joberr_runs:" + ("raised" if outs[0] is not None else "returned"))
+        if info["handed"] + len(root_calls) < len(tasks):
+            ctx.bump("joberr_runs_with_tasks_never_handed_out")
+        if any(c.startswith("ERecvDrain") for c in choices):
+            ctx.bump("joberr_runs_with_drained_results")
+        if "EFallbackErr" in choices:
+            ctx.bump("joberr_runs_root_fallback_raises")
+        st["eterms"].append(eterm(mode, size, ranks, tasks, bad, choices, True, got, ran, outs))
+        st["emeta"].append(dict(idx=("e", idx), replay=replay, what="tasks %s, job raises for %s" % (tasks, bad), got=got, ran=ran,
+                                outs=outs, nchoices=len(choices)))
+        ctx.sample(dict(kind="job-error", replay=replay, root_yielded=got, executed=run["executed"][:12], per_rank=outs,
+                        choices=choices[:40]), limit=4)
+    if j.get("exhaustive"):
+        ctx.bump("joberr_exhaustive_sets_complete" if res.get("exhaustive_complete") else "joberr_exhaustive_sets_truncated")
+        ctx.bump("joberr_exhaustive_runs", len(res.get("runs", [])))
+
+
+def handle_episodes(ctx, st, w, j, run, idx, replay):
+    """the iter_unordered episodes of a refusal run (group C: the job raises on a worker rank), replayed through
+    the extended model; tasks are numbered in the order the root hands them out"""
+    size, mode = w["size"], w["mode"]
+    ranks = ranks_of(size, j["max_workers"], False, None)
+    for ep in run.get("episodes", []):
+        recs = {int(r): v for r, v in ep["ranks"].items()}
+        if not ep["complete"] or any(v is None or v["outcome"] is None for v in recs.values()):
+            ctx.bump("episode_incomplete")
+            continue
+        root = recs[0]
+        choices, info = etranslate(ep["log"], size, root["calls"])
+        eidx = (idx[0], idx[1], "ep%d" % ep["ep"])
+        # the job function's own record (per rank, in order) against the log: one call per task received
+        calls_ok = all(len(recs[r]["calls"]) == sum(1 for x, _ in info["executed"] if x == r) for r in recs)
+        bad = set()
+        for r in recs:
+            mine = [t for x, t in info["executed"] if x == r]
+            bad.update(t for t, c in zip(mine, recs[r]["calls"]) if c == "E")
+        if not calls_ok or None in bad or sorted(bad) != sorted(set(info["failed"])):
+            ctx.disagree("episode-observation(job calls vs logged task messages)", eidx,
+                         dict(replay=replay, calls={r: v["calls"] for r, v in recs.items()}, log_says=info))
+            continue
+        outs = []
+        for r in range(size):
+            o = recs[r]["outcome"]
+            if o[0] == "returned":
+                outs.append(None)
+            elif root["outcome"][0] == "raised" and o[1:] == root["outcome"][1:] and info["first_err"] is not None:
+                outs.append(info["first_err"])
+            else:
+                outs.append(10 ** 6 + r)
+        ntasks = root["ntasks"]
+        erep = dict(replay, episode=ep["ep"], items=ntasks, job_raised_for_items=sorted(bad),
+                    per_rank={r: v["outcome"] for r, v in recs.items()})
+        ctx.count(key=("episode",) + tuple(str(x) for x in eidx) + (size, j["max_workers"], mode, w["policy"], w["seed"], w["spec"]),
+                  nontrivial=bool(bad), kind="episode/%s/%s" % (j["cls"], "job-raises" if bad else "ok"))
+        ctx.bump("episodes_replayed:" + ("raised" if outs[0] is not None else "returned"))
+        st["eterms"].append(eterm(mode, size, ranks, list(range(ntasks)), sorted(bad), choices, False,
+                                  [0] * root["nyield"], [t for _, t in info["executed"]], outs))
+        st["emeta"].append(dict(idx=eidx, replay=erep, what="%s, iter_unordered call #%d over %d items" % (j["cls"], ep["ep"], ntasks),
+                                got=root["nyield"], ran=info["executed"], outs=outs, nchoices=len(choices)))
+        if bad:
+            ctx.sample(dict(kind="refusal-episode", replay=erep, choices=choices[:40]), limit=3)
+
+
+EFLAGS = [
+    (2, "c06-job-error-ranks-end-differently", "the ranks do not leave iter_unordered the same way (all raise the same error or all return)"),
+    (4, "c06-job-error-flag-differs", "the ranks raise although no executed task failed, or return although one did, or raise an error that is not that of an executed failing task"),
+    (8, "c06-job-error-task-executed-twice", "some task was executed more than once (or one that is not in the task list)"),
+    (16, "c06-job-error-yielded-not-executed", "the root yielded something that is not the result of a distinct executed task that did not fail"),
+    (32, "c06-job-error-root-result-differs", "no rank raised but not every task was executed once / the root did not get map f tasks"),
+]
+
+
+def finish_edispatch(ctx, st):
+    codes = ctx.shards("Cases_C06E", HEADER, st["eterms"], shard=120)
+    for m, c in zip(st["emeta"], codes):
+        if c is None or c == 0:
+            continue
+        for bit, sig, what in EFLAGS:
+            if c & bit:
+                ctx.fail(sig, "%s: %s; root yielded %s, executed %s, per rank (None = returned, t = raised the error of task t) %s"
+                         % (m["what"], what, m["got"], m["ran"], m["outs"]), m["replay"], case=m["idx"])
+        if c & 1:
+            ctx.disagree("Cases_C06E", m["idx"], dict(code=c, first_disabled_event=(c // 64) - 1 if c >= 64 else None,
+                                                      replay=m["replay"]))
 
 
 def nontrivial_run(run):
@@ -384,6 +645,8 @@ def pipeline_worlds(ctx):
         pool = list(CLASSES_AM)
         rng.shuffle(pool)
         w["refusals"] = [refusal_item(rng, c, SPECS[w["spec"]], w["mw"]) for c in pool[:per_world]]
+        # the job raises on a worker rank (group C, repaired by 32238ed): one class per world, replayed through the model
+        w["refusals"].append(refusal_item(rng, rng.choice(CLASSES_C), SPECS[w["spec"]], w["mw"]))
         if not ctx.quick():
             w["refusals"].append(refusal_item(rng, rng.choice(CLASSES_BC), SPECS[w["spec"]], w["mw"]))
     for i, w in enumerate(worlds):
@@ -398,6 +661,7 @@ def pipeline_worlds(ctx):
 # ------------------------------------------------------------------------------------------
 CLASSES_AM = sorted(c for c, v in cc.REFUSALS.items() if v[0] in "AM")
 CLASSES_BC = sorted(c for c, v in cc.REFUSALS.items() if v[0] in "BC")
+CLASSES_C = sorted(c for c, v in cc.REFUSALS.items() if v[0] == "C")
 NEEDS_EXTRA = {"cross-patch-ids-differ": ["ids"], "auto-patch-ids-differ": ["ids"], "auto-centres-misaligned": ["shift"],
                "cross-centres-misaligned": ["shift"], "trees-no-redshifts": ["noz"], "auto-no-redshifts": ["noz"],
                "cross-no-redshifts": ["noz"], "hist-no-redshifts": ["noz"]}
@@ -475,6 +739,7 @@ def refusal_job(w, d, caches, ref, item, jid, seed):
     if cc.REFUSALS[cls][2] and mw == 1:
         mw = 2          # catalog creation on an MPI world is refused for max_workers=1 whatever the input
     return dict(kind="refusal", id=jid, cls=cls, par=item["par"], follow=item["follow"], spec=SPECS[w["spec"]],
+                trace=cc.REFUSALS[cls][0] == "C",
                 env=refusal_env(os.path.join(d, "refusal_" + jid), ref, cls, caches), max_workers=mw,
                 sched=dict(mode=w["mode"], policy=w["policy"], seed=seed),
                 ref_first=item.get("ref_first") or refusal_reference(ref, w["spec"], cls, item["par"]))
@@ -538,6 +803,7 @@ def handle_refusal(ctx, st, w, ref, j, res):
         ctx.bump("refusal_all_ranks_same_outcome" if len(kinds) == 1 else "refusal_ranks_end_request_differently")
         if run["leftover"]:
             ctx.bump("refusal_runs_with_unreceived_messages")
+        handle_episodes(ctx, st, w, j, run, idx, replay)
     worlds = []
     for cid in sorted(run.get("ctraces", {}), key=int):
         tr = run["ctraces"][cid]
@@ -692,10 +958,14 @@ def is_f13b(run):
 
 
 # ------------------------------------------------------------------------------------------
+def new_state():
+    return dict(terms=[], meta=[], noterm=[], rterms=[], rmeta=[], eterms=[], emeta=[], enoterm=[])
+
+
 def run(ctx):
     t0 = time.time()
     workers = 8
-    st = dict(terms=[], meta=[], noterm=[], rterms=[], rmeta=[])
+    st = new_state()
     # plan
     dworlds = []
     nbatch = ctx.n(1, 4)
@@ -751,6 +1021,8 @@ def run(ctx):
                     selftest = res.get("selftest")
                 elif res.get("skipped"):
                     ctx.bump("dispatch_job_skipped_after_stuck_threads")
+                elif j.get("bad") is not None:
+                    handle_joberr(ctx, st, w["size"], j, res)
                 else:
                     handle_dispatch(ctx, st, w["size"], j, res)
         else:
@@ -763,13 +1035,20 @@ def run(ctx):
     ctx.log("dispatch shards done (%.1fs)" % (time.time() - t0))
     finish_refusals(ctx, st)
     ctx.log("refusal shards done (%.1fs)" % (time.time() - t0))
+    finish_edispatch(ctx, st)
+    ctx.log("job-error shards done (%.1fs)" % (time.time() - t0))
     ctx.extra["refusals"] = dict(classes={c: cc.REFUSALS[c][0] for c in sorted(cc.REFUSALS)}, runs=len(st["rterms"]),
                                  groups="A: decided by every rank; B: detected by one rank (root reads / writer opens); "
                                         "C: raised by the job on a worker rank; M: refused under MPI only")
     ctx.extra["worlds"] = dict(dispatch_processes=len(dworlds), pipeline_processes=len(pworlds),
                                dispatch_runs=len(st["terms"]) + len(st["noterm"]),
                                max_process_wall_s=max(walls) if walls else None)
+    ctx.extra["job_errors"] = dict(runs=len(st["eterms"]) + len(st["enoterm"]),
+                                   what="failing-job dispatch runs and iter_unordered episodes of group C refusals replayed "
+                                        "through estep_with (Model/Dispatch.v, c06_edispatch_case)")
     ctx.extra["hypotheses_checked"] = ["every logged event enabled in Model/Dispatch.v step_with (flag0)",
+                                       "failing jobs: every logged event enabled in estep_with, final model state = observed "
+                                       "yields / executed tasks / per-rank outcome (flag0 of c06_edispatch_case)",
                                        "none needed: dispatch_exactly_once_total has no hypothesis on the rank set",
                                        "refusal runs: all ranks returned -> the logged collective calls of every communicator "
                                        "are aligned (C06_collectives_terminate_iff_aligned, flag0 of c06_refusal_case)"]
@@ -782,10 +1061,16 @@ def replay(ctx, data):
     if r.get("entry") == "parallel.iter_unordered":
         job = dict(size=size, jobs=[dict(kind="dispatch", id=0, tasks=r["tasks"], max_workers=r["max_workers"],
                                          node_only=r.get("rank0_node_only"), sched=r["schedule"])])
+        if r.get("job_raises_for") is not None:
+            job["jobs"][0]["bad"] = r["job_raises_for"]
         res = launch(ctx, "replay", job)
-        st = dict(terms=[], meta=[], noterm=[])
-        handle_dispatch(ctx, st, size, job["jobs"][0], res["out"]["results"][0])
-        finish_dispatch(ctx, st)
+        st = new_state()
+        if r.get("job_raises_for") is not None:
+            handle_joberr(ctx, st, size, job["jobs"][0], res["out"]["results"][0])
+            finish_edispatch(ctx, st)
+        else:
+            handle_dispatch(ctx, st, size, job["jobs"][0], res["out"]["results"][0])
+            finish_dispatch(ctx, st)
     elif r.get("entry") == "refusal":
         name = r["data_spec"]["name"]
         ref = reference(ctx, name)
@@ -794,14 +1079,15 @@ def replay(ctx, data):
                  refusals=[dict(cls=r["refusal_class"], par=r["parameters"], follow=r["follow_up"])])
         job = pipeline_job(ctx, w, ref)
         res = launch(ctx, "replay", job)
-        st = dict(terms=[], meta=[], noterm=[], rterms=[], rmeta=[])
+        st = new_state()
         handle_pipeline(ctx, w, ref, res["out"], st, job["jobs"])
         finish_refusals(ctx, st)
+        finish_edispatch(ctx, st)
     else:
         name = r["data_spec"]["name"]
         ref = reference(ctx, name)
         w = dict(id="replay", size=size, mw=r["max_workers"], mode=r["mode"], policy=r["policy"], seed=r["seed"], spec=name)
         job = pipeline_job(ctx, w, ref)
         res = launch(ctx, "replay", job)
-        handle_pipeline(ctx, w, ref, res["out"], dict(terms=[], meta=[], noterm=[], rterms=[], rmeta=[]), job["jobs"])
+        handle_pipeline(ctx, w, ref, res["out"], new_state(), job["jobs"])
     reap()
